@@ -13,6 +13,8 @@ import (
 
 	eth2api "github.com/attestantio/go-eth2-client/api"
 	eth2v1 "github.com/attestantio/go-eth2-client/api/v1"
+	eth2spec "github.com/attestantio/go-eth2-client/spec"
+	"github.com/attestantio/go-eth2-client/spec/altair"
 	eth2p0 "github.com/attestantio/go-eth2-client/spec/phase0"
 
 	"github.com/obolnetwork/charon/app/eth2wrap"
@@ -102,6 +104,19 @@ type Client struct {
 	// (produceBlockV3). nil = the endpoint is not served (Proposal panics like any unimplemented method).
 	ProposalFn func(ctx context.Context, opts *eth2api.ProposalOpts) (*eth2api.VersionedProposal, error)
 
+	// AggregateAttestationFn returns this node's view of the aggregate attestation for (slot, attestation
+	// data root, committee); a nil result with a nil error = "not found" (the response carries nil Data).
+	// nil func = the endpoint is not served (AggregateAttestation panics like any unimplemented method).
+	AggregateAttestationFn func(ctx context.Context, opts *eth2api.AggregateAttestationOpts) (*eth2spec.VersionedAttestation, error)
+
+	// SyncCommitteeContributionFn returns this node's view of the sync committee contribution for (slot,
+	// subcommittee, beacon block root); nil result with nil error = "not found". nil func = not served.
+	SyncCommitteeContributionFn func(ctx context.Context, opts *eth2api.SyncCommitteeContributionOpts) (*altair.SyncCommitteeContribution, error)
+
+	// SpecExtra, if set, is merged into the served spec (e.g. TARGET_AGGREGATORS_PER_COMMITTEE,
+	// SYNC_COMMITTEE_SIZE); nil = the spec served before this field existed.
+	SpecExtra map[string]any
+
 	// Latency, if set, is the simulated response time of an endpoint ("spec", "domain").
 	Latency func(method string) time.Duration
 
@@ -162,6 +177,9 @@ func (c *Client) Spec(context.Context, *eth2api.SpecOpts) (*eth2api.Response[map
 			m[name+"_FORK_VERSION"] = f.Version
 		}
 	}
+	for k, v := range c.SpecExtra {
+		m[k] = v
+	}
 	return &eth2api.Response[map[string]any]{Data: m, Metadata: map[string]any{}}, nil
 }
 
@@ -215,4 +233,31 @@ func (c *Client) AttestationData(ctx context.Context, opts *eth2api.AttestationD
 		return nil, err
 	}
 	return &eth2api.Response[*eth2p0.AttestationData]{Data: d, Metadata: map[string]any{}}, nil
+}
+
+// AggregateAttestation serves the aggregate this node's beacon view holds for the request (AggregateAttestationFn).
+func (c *Client) AggregateAttestation(ctx context.Context, opts *eth2api.AggregateAttestationOpts) (*eth2api.Response[*eth2spec.VersionedAttestation], error) {
+	c.count("aggregate_attestation")
+	if c.AggregateAttestationFn == nil {
+		panic("simbeacon: AggregateAttestation called but no AggregateAttestationFn installed")
+	}
+	a, err := c.AggregateAttestationFn(ctx, opts)
+	if err != nil {
+		return nil, err
+	}
+	return &eth2api.Response[*eth2spec.VersionedAttestation]{Data: a, Metadata: map[string]any{}}, nil
+}
+
+// SyncCommitteeContribution serves the contribution this node's beacon view holds for the request
+// (SyncCommitteeContributionFn).
+func (c *Client) SyncCommitteeContribution(ctx context.Context, opts *eth2api.SyncCommitteeContributionOpts) (*eth2api.Response[*altair.SyncCommitteeContribution], error) {
+	c.count("sync_committee_contribution")
+	if c.SyncCommitteeContributionFn == nil {
+		panic("simbeacon: SyncCommitteeContribution called but no SyncCommitteeContributionFn installed")
+	}
+	d, err := c.SyncCommitteeContributionFn(ctx, opts)
+	if err != nil {
+		return nil, err
+	}
+	return &eth2api.Response[*altair.SyncCommitteeContribution]{Data: d, Metadata: map[string]any{}}, nil
 }
